@@ -52,6 +52,8 @@ def r05_1(ctx: Ctx):
 
     unknown = []
 
+    from .common import default_truth
+
     def edge_fn(n, lab, s):
         verdict = consult_verdict(ctx, f, n, "gsc", lab)
         if verdict == "?":
@@ -59,6 +61,12 @@ def r05_1(ctx: Ctx):
             return s
         if verdict is not None:
             return "TRUE" if verdict else "FALSE"
+        if n.kind == "cond" and n.ast is not None and lab in (True, False):
+            # a test on an opt-in parameter (`max_steps is None`): the property speaks about run() as documented, i.e. with
+            # the parameter at its default - the other outcome is that feature's own path
+            dt = default_truth(f, n.ast)
+            if dt is not None and dt != lab:
+                return KILL
         return s
 
     at, exits, parent = typestate(cfg, ["UNCHECKED"], node_fn, edge_fn)
